@@ -322,3 +322,233 @@ Proof.
   all: try (split; [eqb_goal; lia | reflexivity]).
   all: destruct k; try discriminate; cbn [kont_inv] in OK; unfold boundary, user, tokbit in *; intuition lia.
 Qed.
+
+(* ---------- F: what get() returns ---------- *)
+Definition get_ok (v : Z) (th : thread) : Prop :=
+  Forall (fun p => (fst p = r_get \/ fst p = r_getx) -> snd p = v) (res th).
+
+Lemma get_ok_next v X : get_ok v X -> get_ok v (next X).
+Proof. unfold get_ok, next. destruct (prog X); exact (fun H => H). Qed.
+Lemma get_ok_goto v X p : get_ok v X -> get_ok v (goto X p).
+Proof. exact (fun H => H). Qed.
+Lemma get_ok_addh v X d : get_ok v X -> get_ok v (addh X d).
+Proof. exact (fun H => H). Qed.
+Lemma get_ok_untok v X : get_ok v X -> get_ok v (untok X).
+Proof. exact (fun H => H). Qed.
+Lemma get_ok_logr v X tag x : ((tag = r_get \/ tag = r_getx) -> x = v) -> get_ok v X -> get_ok v (logr X tag x).
+Proof. intros H G. unfold get_ok, logr; cbn. constructor; [exact H | exact G]. Qed.
+Lemma get_ok_finish v X K : get_ok v X -> get_ok v (finish X K).
+Proof.
+  intros G. destruct K as [|[|]|p u|]; cbn [finish]; try exact G.
+  - apply get_ok_next, get_ok_logr; [unfold r_wait, r_get, r_getx; lia | exact G].
+  - apply get_ok_next, get_ok_logr; [unfold r_waitfor, r_get, r_getx; lia | exact G].
+  - apply get_ok_next; exact G.
+Qed.
+Lemma get_ok_fallback v X K : get_ok v X -> get_ok v (fallback X K).
+Proof. intros G. destruct K as [|g|p [|]|]; cbn; try exact G. apply get_ok_next; exact G. Qed.
+Lemma get_ok_wake1 v x : get_ok v x -> get_ok v (wake1 x).
+Proof. unfold get_ok. destruct (wake1_fields x) as (_ & -> & _). exact (fun H => H). Qed.
+
+Lemma res_next X : res (next X) = res X.
+Proof. unfold next. destruct (prog X); reflexivity. Qed.
+Lemma res_fallback X K : res (fallback X K) = res X.
+Proof. destruct K as [|g|p [|]|]; cbn [fallback]; rewrite ?res_next; reflexivity. Qed.
+
+Ltac get_ok_tac G :=
+  try apply get_ok_finish; unfold get_ok in *; rewrite ?res_next, ?res_fallback; cbn [res logr goto addh untok];
+  repeat (constructor; [cbn [fst snd]; unfold r_get, r_getx, r_wait, r_waitfor, r_ready, r_func, r_disp, r_dealloc, r_tswait; try lia|]);
+  try exact G.
+
+Lemma F_tstep c g th ch g' th' wk ch' site :
+  tstep c g th ch = Some (g', th', wk, ch', site) -> get_ok (val c) th -> rr_ok g th ->
+  (word g = 2 -> cell g = val c) -> val c <> 0 -> bad_get g = false ->
+  get_ok (val c) th' /\ bad_get g' = false.
+Proof.
+  intros T G R Hc Hv Hb. unfold rr_ok in R.
+  tcases T; fsimp; (split; [get_ok_tac G | try exact Hb]).
+  all: assert (W : word g = 2) by (apply R; reflexivity); specialize (Hc W).
+  1,3: intros _; exact Hc.
+  all: rewrite Hb, W, Hc; cbn [orb negb kReady Z.eqb Pos.eqb]; destruct (Z.eqb_spec (val c) 0); [contradiction | reflexivity].
+Qed.
+
+(* ---------- the global invariant ---------- *)
+Lemma zsum_le {A} (f h : A -> Z) l : (forall x, In x l -> f x <= h x) -> zsum f l <= zsum h l.
+Proof.
+  induction l as [|a l IH]; intros H; [cbn; lia|]. change (f a + zsum f l <= h a + zsum h l).
+  assert (f a <= h a) by (apply H; left; reflexivity). assert (zsum f l <= zsum h l) by (apply IH; intros; apply H; right; assumption). lia.
+Qed.
+Lemma zsum_map {A B} (f : B -> Z) (h : A -> B) l : zsum f (map h l) = zsum (fun x => f (h x)) l.
+Proof. unfold zsum. induction l as [|a l IH]; cbn; [reflexivity | rewrite IH; reflexivity]. Qed.
+Lemma zsum_ext {A} (f h : A -> Z) l : (forall x, f x = h x) -> zsum f l = zsum h l.
+Proof. intros E. unfold zsum. induction l as [|a l IH]; cbn; [reflexivity | rewrite IH, E; reflexivity]. Qed.
+Lemma zsum_const0 {A} (f : A -> Z) l : (forall x, f x = 0) -> zsum f l = 0.
+Proof. intros E. unfold zsum. induction l as [|a l IH]; cbn; [reflexivity | rewrite IH, E; reflexivity]. Qed.
+
+Record Inv18 (B : Z) (s : state) : Prop := {
+  iK : 0 <= orphan (conf s) /\ val (conf s) <> 0 /\ B < 4294967296;
+  iA1 : word_ok (sh s);
+  iA2 : Forall (rr_ok (sh s)) (threads s);
+  iB1 : zsum win (threads s) = b1 (word (sh s));
+  iB2 : zsum inf (threads s) + fcount (sh s) = b0 (word (sh s));
+  iB3 : cell_ok (conf s) (sh s);
+  iC1 : Forall thr_ok (threads s);
+  iC2 : refc (sh s) = orphan (conf s) + conts (sh s) + zsum own (threads s);
+  iC3 : 0 <= conts (sh s);
+  iC4 : refc (sh s) + zsum incs (threads s) <= B;
+  iC5 : freed_ok (sh s);
+  iF1 : Forall (get_ok (val (conf s))) (threads s);
+  iF2 : bad_get (sh s) = false }.
+
+Lemma own_nonneg_all ths : Forall thr_ok ths -> forall y, In y ths -> 0 <= own y.
+Proof.
+  intros F y Hy. rewrite Forall_forall in F. destruct (thr_ok_own _ (F _ Hy)) as (H0 & Hk & _). unfold own, tokbit in *. lia.
+Qed.
+
+(* consequences used both in the step proof and in the theorems *)
+Lemma inv_ready_cell B s : Inv18 B s -> word (sh s) = 2 -> fcount (sh s) = 1 /\ cell (sh s) = val (conf s).
+Proof.
+  intros I W. destruct I. rewrite W in *. unfold b1, b0 in *; cbn in iB4, iB5.
+  assert (zsum inf (threads s) <= zsum win (threads s)) by (apply zsum_le; intros x _; apply inf_le_win).
+  assert (0 <= zsum inf (threads s)) by (apply zsum_nonneg; intros x _; apply inf_le_win).
+  destruct iB6 as (C0 & C1 & C2). assert (fcount (sh s) = 1) by lia. split; [assumption | apply C2; lia].
+Qed.
+
+Lemma Inv18_step B s t ch s' ch' site : Inv18 B s -> step s t ch = Some (s', ch', site) -> Inv18 B s'.
+Proof.
+  intros I E. pose proof (inv_ready_cell _ _ I) as RC.
+  destruct I as [K A1 A2 B1 B2 B3 C1 C2 C3 C4 C5 F1 F2].
+  destruct (step_inv _ _ _ _ _ _ E) as (th & g' & th' & wk & N & T & ->). clear E.
+  pose proof (nth_error_In _ _ N) as Hin.
+  pose proof A2 as A2'. rewrite Forall_forall in A2'. pose proof (A2' _ Hin) as Rth.
+  pose proof C1 as C1'. rewrite Forall_forall in C1'. pose proof (C1' _ Hin) as OKth.
+  pose proof F1 as F1'. rewrite Forall_forall in F1'. pose proof (F1' _ Hin) as Gth.
+  pose proof (own_nonneg_all _ C1) as Hon.
+  assert (Hw : win th = 1 -> word (sh s) = 1).
+  { intros W1. pose proof (zsum_ge_elem win _ _ (fun y _ => proj1 (win_range y)) Hin) as L. rewrite B1 in L. unfold b1 in L.
+    destruct (Z.eqb_spec (word (sh s)) 1); [assumption | lia]. }
+  assert (Ho : own th <= refc (sh s)).
+  { pose proof (zsum_ge_elem own _ _ Hon Hin). destruct K. lia. }
+  assert (Hb : refc (sh s) + incs th <= B).
+  { pose proof (zsum_ge_elem incs _ _ (fun y _ => incs_nonneg y) Hin). lia. }
+  destruct K as (K1 & K2 & K3).
+  destruct (A_tstep _ _ _ _ _ _ _ _ _ T A1 Rth) as (A1' & Rth' & Wd).
+  destruct (B_tstep _ _ _ _ _ _ _ _ _ T Hw B3) as (D1 & D2 & B3').
+  destruct (C_tstep _ _ _ _ _ _ _ _ _ B T OKth Ho C3 Hb K3 C5) as (OK' & D3 & C3' & D4 & C5').
+  destruct (F_tstep _ _ _ _ _ _ _ _ _ T Gth Rth (fun W => proj2 (RC W)) K2 F2) as (G' & F2').
+  constructor; cbn [conf sh threads].
+  - auto.
+  - exact A1'.
+  - apply Forall_step with (P := rr_ok (sh s)); auto.
+    + unfold rr_ok. intros x Hx Rx. specialize (Hx Rx). lia.
+    + unfold rr_ok. intros x Hx. rewrite rr_wake1. exact Hx.
+  - rewrite (zsum_step win wk _ t th th' win_wake1 N). lia.
+  - rewrite (zsum_step inf wk _ t th th' inf_wake1 N). lia.
+  - exact B3'.
+  - apply Forall_step with (P := thr_ok); auto. apply ok_wake1.
+  - rewrite (zsum_step own wk _ t th th' own_wake1 N). lia.
+  - exact C3'.
+  - rewrite (zsum_step incs wk _ t th th' incs_wake1 N). lia.
+  - exact C5'.
+  - apply Forall_step with (P := get_ok (val (conf s))); auto. apply get_ok_wake1.
+  - exact F2'.
+Qed.
+
+(* ---------- initial states ---------- *)
+Definition refc0 (c : cfg) (ds : list tdesc) : Z := orphan c + zsum (fun d => let '(h, k, _) := d in h + k) ds.
+Definition wf_init (B : Z) (c : cfg) (ds : list tdesc) : Prop :=
+  Forall (fun d => let '(h, k, p) := d in boundary h k p) ds /\
+  0 <= orphan c /\ val c <> 0 /\ B < 4294967296 /\ 1 <= refc0 c ds /\
+  refc0 c ds + zsum (fun d => let '(_, _, p) := d in count_incs p) ds <= B.
+
+Lemma Inv18_init B c ds : wf_init B c ds -> Inv18 B (init c ds).
+Proof.
+  intros (W & O & V & HB & R1 & RB). unfold refc0 in *.
+  constructor; cbn [conf sh threads init init_sh word refc conts cell fcount freed bad_touch bad_get].
+  - auto.
+  - left; reflexivity.
+  - apply Forall_forall. intros x Hx. apply in_map_iff in Hx. destruct Hx as [[[h k] p] [<- _]]. intros R; discriminate R.
+  - rewrite zsum_map. apply zsum_const0. intros [[h k] p]. reflexivity.
+  - rewrite zsum_map. rewrite (zsum_const0 (fun x => inf (mk_thread x))); [reflexivity | intros [[h k] p]; reflexivity].
+  - unfold cell_ok; cbn. split; [lia | split; [reflexivity | intros H; contradiction H; reflexivity]].
+  - apply Forall_forall. intros x Hx. apply in_map_iff in Hx. destruct Hx as [[[h k] p] [<- Hd]].
+    rewrite Forall_forall in W. exact (W _ Hd).
+  - rewrite zsum_map. rewrite (zsum_ext (fun x => own (mk_thread x)) (fun d => let '(h, k, _) := d in h + k)); [rewrite Z.add_0_r; reflexivity | intros [[h k] p]; reflexivity].
+  - lia.
+  - rewrite zsum_map. rewrite (zsum_ext (fun x => incs (mk_thread x)) (fun d => let '(_, _, p) := d in count_incs p)); [exact RB|].
+    intros [[h k] p]. unfold incs; cbn [mk_thread prog tpc]. lia.
+  - unfold freed_ok; cbn. split; [|reflexivity]. destruct (Z.eqb_spec (orphan c + zsum (fun d => let '(h, k, _) := d in h + k) ds) 0); [lia | reflexivity].
+  - apply Forall_forall. intros x Hx. apply in_map_iff in Hx. destruct Hx as [[[h k] p] [<- _]]. constructor.
+  - reflexivity.
+Qed.
+
+Theorem inv18_reach B c ds s : wf_init B c ds -> reach step (init c ds) s -> Inv18 B s.
+Proof.
+  intros W R. apply (reach_inv step (Inv18 B) (init c ds)); [apply Inv18_init; exact W | | exact R].
+  intros s1 t ch s1' ch' site I E. eapply Inv18_step; eauto.
+Qed.
+
+(* ---------- the C18 theorems ---------- *)
+Theorem functor_runs_once B c ds s : wf_init B c ds -> reach step (init c ds) s ->
+  fcount (sh s) + zsum inf (threads s) = (if word (sh s) =? kNotStarted then 0 else 1) /\
+  0 <= fcount (sh s) <= 1 /\
+  zsum win (threads s) = (if word (sh s) =? kRunning then 1 else 0) /\
+  (word (sh s) = kReady -> fcount (sh s) = 1 /\ cell (sh s) = val c).
+Proof.
+  intros W R. pose proof (inv18_reach _ _ _ _ W R) as I. pose proof (inv_ready_cell _ _ I) as RC. destruct I as [K A1 A2 B1 B2 B3 C1 C2 C3 C4 C5 F1 F2].
+  assert (0 <= zsum inf (threads s)) by (apply zsum_nonneg; intros x _; apply inf_le_win).
+  destruct B3 as (C0 & _). unfold b0, b1, kNotStarted, kRunning, kReady in *.
+  assert (Ec : conf s = c).
+  { clear -R. induction R as [|s1 t ch s1' ch' site R IH E]; [reflexivity|].
+    destruct (step_inv _ _ _ _ _ _ E) as (th & g' & th' & wk & _ & _ & ->). exact IH. }
+  rewrite Ec in RC. split; [destruct (word (sh s) =? 0); lia|]. split; [destruct (word (sh s) =? 0); lia|].
+  split; [exact B1 | exact RC].
+Qed.
+
+Lemma conf_reach c ds s : reach step (init c ds) s -> conf s = c.
+Proof.
+  intros R. induction R as [|s1 t ch s1' ch' site R IH E]; [reflexivity|].
+  destruct (step_inv _ _ _ _ _ _ E) as (th & g' & th' & wk & _ & _ & ->). exact IH.
+Qed.
+
+Theorem get_after_ready B c ds s : wf_init B c ds -> reach step (init c ds) s ->
+  bad_get (sh s) = false /\
+  (forall th tag v, In th (threads s) -> In (tag, v) (res th) -> tag = r_get \/ tag = r_getx -> v = val c) /\
+  (forall th, In th (threads s) -> tpc th = PGetResult -> word (sh s) = kReady /\ cell (sh s) = val c).
+Proof.
+  intros W R. pose proof (inv18_reach _ _ _ _ W R) as I. pose proof (inv_ready_cell _ _ I) as RC.
+  rewrite (conf_reach _ _ _ R) in RC. destruct I as [K A1 A2 B1 B2 B3 C1 C2 C3 C4 C5 F1 F2]. cbn beta in *. rewrite (conf_reach _ _ _ R) in *. split; [assumption|]. split.
+  - intros th tag v Hth Hr Ht. rewrite Forall_forall in F1. specialize (F1 _ Hth). unfold get_ok in F1.
+    rewrite Forall_forall in F1. exact (F1 _ Hr Ht).
+  - intros th Hth P. rewrite Forall_forall in A2. specialize (A2 _ Hth). unfold rr_ok in A2. rewrite P in A2.
+    assert (word (sh s) = 2) by (apply A2; reflexivity). split; [assumption | apply RC; assumption].
+Qed.
+
+Theorem refcount_safe B c ds s : wf_init B c ds -> reach step (init c ds) s ->
+  bad_touch (sh s) = false /\
+  freed (sh s) = (if refc (sh s) =? 0 then 1 else 0) /\
+  refc (sh s) = orphan c + conts (sh s) + zsum own (threads s) /\
+  (forall th, In th (threads s) -> 0 <= hnd th /\ (tok th = 0 \/ tok th = 1) /\
+       (tpc th <> PStart -> tpc th <> PDone -> 1 <= own th /\ freed (sh s) = 0)).
+Proof.
+  intros W R. pose proof (inv18_reach _ _ _ _ W R) as I. destruct I as [K A1 A2 B1 B2 B3 C1 C2 C3 C4 C5 F1 F2]. rewrite (conf_reach _ _ _ R) in *.
+  destruct C5 as (Hf & Ht). split; [assumption|]. split; [assumption|]. split; [assumption|].
+  intros th Hth. pose proof C1 as OK. rewrite Forall_forall in OK. destruct (thr_ok_own _ (OK _ Hth)) as (H0 & Hk & H1).
+  split; [assumption|]. split; [exact Hk|]. intros N1 N2. specialize (H1 N1 N2). split; [assumption|].
+  pose proof (zsum_ge_elem own _ _ (own_nonneg_all _ C1) Hth). destruct K as (K1 & _).
+  rewrite Hf. destruct (Z.eqb_spec (refc (sh s)) 0); [lia | reflexivity].
+Qed.
+
+(* ---------- non-vacuity witness ---------- *)
+Definition nv_cfg := CFG true false 7 false false false 0.
+Definition nv_ds : list tdesc := [(0, 1, [ORun]); (1, 0, [OGet; ODrop]); (1, 0, [OCopy; OWait; ODrop; ODrop])].
+Lemma nonvacuous_c18 :
+  wf_init 100 nv_cfg nv_ds /\
+  let '(s, _, st) := run_future 80 nv_cfg nv_ds [0;1;2;0;1;2;0;1;2;0;1;2;0;1;2;0;1;2;0;1;2;0;1;2;0;1;2;0;1;2;0;1;2;0;1;2;0;0;0;0;0;0;0;0;0;0] in
+  st = SDone /\ fcount (sh s) = 1 /\ freed (sh s) = 1 /\ refc (sh s) = 0 /\
+  map (fun th => rev (res th)) (threads s) = [[(r_func, 1)]; [(r_get, 7)]; [(r_wait, 1); (r_dealloc, 1)]].
+Proof.
+  split.
+  - unfold wf_init, nv_ds, nv_cfg, refc0, boundary, tokbit; cbn. repeat split; try lia; try (left; reflexivity); try (right; reflexivity);
+      repeat constructor; cbn; try lia; auto.
+  - vm_compute. repeat split; reflexivity.
+Qed.
